@@ -67,6 +67,49 @@ fn main() {
 			println!("end={:?} steps={}", a.end, a.steps);
 			0
 		}
+		Some("selftest") => {
+			// determinism proof protocol: every scenario x N seeds, each executed twice in-process on 16 worker
+			// threads and once more on a single thread; event-log hashes must agree
+			let n: u64 = args.get(2).and_then(|s| s.parse().ok()).unwrap_or(400);
+			let empty = std::collections::BTreeMap::new();
+			let mut bad = 0u64;
+			let mut total = 0u64;
+			for c in &checks {
+				for scen in &c.scens {
+					let hashes: Vec<std::sync::Mutex<(u64, u64)>> = (0..n).map(|_| std::sync::Mutex::new((0, 0))).collect();
+					let next = std::sync::atomic::AtomicU64::new(0);
+					std::thread::scope(|sc| {
+						for _ in 0..16 {
+							sc.spawn(|| loop {
+								let i = next.fetch_add(1, std::sync::atomic::Ordering::Relaxed);
+								if i >= n {
+									break;
+								}
+								let a = search::run_scen(scen, 1000 + i, None, false, &empty, false);
+								let b = search::run_scen(scen, 1000 + i, None, false, &empty, true);
+								*hashes[i as usize].lock().unwrap() = (a.hash, b.hash);
+							});
+						}
+					});
+					let mut mism = 0;
+					for i in 0..n {
+						let (a, b) = *hashes[i as usize].lock().unwrap();
+						let c1 = search::run_scen(scen, 1000 + i, None, false, &empty, false);
+						if a != b || a != c1.hash {
+							mism += 1;
+							if mism <= 3 {
+								println!("NONDETERMINISM {} {} seed {}: {:016x} {:016x} {:016x}", c.prop, scen.name, 1000 + i, a, b, c1.hash);
+							}
+						}
+					}
+					total += n;
+					bad += mism;
+					println!("{} {}: {} seeds x 3 executions (2 on 16 threads, 1 on the main thread): {} mismatches", c.prop, scen.name, n, mism);
+				}
+			}
+			println!("selftest: {total} seeds, {bad} mismatches");
+			if bad > 0 { 2 } else { 0 }
+		}
 		Some("list") => {
 			for c in &checks {
 				println!("{} {} scenarios={:?}", c.prop, c.level, c.scens.iter().map(|s| s.name).collect::<Vec<_>>());
